@@ -21,7 +21,7 @@ WEIGHTS = {
     "tree_path": 9, "new_file": 8, "new_directory": 8, "new_symlink": 3, "create_path": 3, "assign_id": 1,
     "delete_contents": 8, "cancel_deletion": 1, "adjust_path": 16, "version_file": 6, "cancel_versioning": 1,
     "unversion_file": 6, "set_executability": 9, "create_file": 4, "create_directory": 4, "create_symlink": 2,
-    "cancel_creation": 2, "replace": 6, "delete_versioned": 3, "chmod_tree_file": 5, "shadow": 6, "move_tree_file": 5,
+    "cancel_creation": 2, "replace": 6, "delete_versioned": 3, "chmod_tree_file": 5, "shadow": 6, "move_tree_file": 8, "limbo_chain": 5,
 }
 
 
@@ -161,6 +161,20 @@ def _gen_kind(rng, st, k):
         if how == "new_file":
             op["content"] = _content(rng)
         return op
+    if k == "limbo_chain":
+        # entries created by this transform, three levels deep (dir a / dir p / file f [+ sibling dir q]); f is re-parented
+        # under the SAME name, then its former parent p is renamed or moved: the limbo bookkeeping of nested new directories
+        want = 4
+        if len(st.slots) > MAX_SLOTS - want:
+            return None
+        names = rng.sample(st.names, 4)
+        dest = rng.choice(["root", "sibling", "grand"])
+        op = {"op": "limbo_chain", "a": names[0], "p": names[1], "f": names[2], "q": names[3], "dest": dest,
+              "p_new": rng.choice([n for n in st.names if n != names[1]]), "p_to": rng.choice(["same", "same", "root"]),
+              "content": _content(rng), "executable": rng.choice([None, None, True]),
+              "ids": [st.fresh_id() if st.use_ids else "git" for _ in range(4)] if rng.random() < 0.85 else [None] * 4,
+              "extra": rng.random() < 0.5}
+        return op
     if k == "move_tree_file":
         # a plain move / rename of an existing versioned file that gets nothing else (executable ones preferred: their bit
         # has to travel with them although the transform never mentions it)
@@ -261,6 +275,18 @@ def _gen_kind(rng, st, k):
 def note_op(st, op, ok):
     """Update the generator bookkeeping after op was executed on the primary transform (ok = it did not raise)."""
     k = op["op"]
+    if k == "limbo_chain":
+        for kind in ("directory", "directory", "directory", "file"):
+            n = Slot("new", None, named=True)
+            n.dead = not ok
+            if ok:
+                n.created = kind
+                n.new_id = op["ids"][0] is not None
+            st.slots.append(n)
+        for i in op["ids"]:
+            if i is not None:
+                st.used_new_ids.add(i)
+        return
     if k == "shadow":
         s = Slot("tree", op["path"], named=True)
         s.dead = not ok
@@ -346,6 +372,18 @@ def execute(tt, ids, op, git):
     if k == "tree_path":
         ids.append(None)
         ids[-1] = tt.trans_id_tree_path(op["path"])
+    elif k == "limbo_chain":
+        base = len(ids)
+        ids.extend([None] * 4)
+        fa, fp_, fq, ff = (_fid(x, git) for x in op["ids"])
+        a = ids[base] = tt.new_directory(op["a"], tt.root, fa)
+        p_ = ids[base + 1] = tt.new_directory(op["p"], a, fp_)
+        q = ids[base + 2] = tt.new_directory(op["q"], a, fq)
+        f = ids[base + 3] = tt.new_file(op["f"], p_, [op["content"]], ff, op["executable"] if ff is not None else None)
+        if op["extra"]:
+            tt.new_file(op["f"] + ".2", p_, [b"second\n"], None, None)
+        tt.adjust_path(op["f"], {"root": tt.root, "sibling": q, "grand": a}[op["dest"]], f)  # same name, other parent
+        tt.adjust_path(op["p_new"], a if op["p_to"] == "same" else tt.root, p_)  # the former parent gets a new limbo path
     elif k == "shadow":
         ids.append(None)
         if op["how"] != "adjust":
